@@ -1,0 +1,80 @@
+package cast
+
+import (
+	"fmt"
+	"strconv"
+)
+
+// GroupKeyPart encodes one grouping value as a self-delimiting segment of a
+// composite map key:
+//
+//	<decimal length of T>:<T>|        with T = <kind>|<value text>
+//
+// A composite key is the plain concatenation of the segments of its columns.
+// Because every segment starts with the length of its payload, the
+// concatenation can be split in only one way, so two tuples share a key only
+// if they agree column by column in kind and value -- whatever bytes the
+// values contain ('|', ',', unit separators, NUL, the empty string). nil (SQL
+// NULL or a missing field) has its own kind and therefore never collides with
+// the empty string or with any marker string.
+//
+// The kind is a property of the value, not of its Go type: every integral
+// number (int, int64, float64(1), ...) is "int|<decimal>", so that int(1) and
+// float64(1) stay in one group (SQL numeric equality); other floats are
+// "float|<shortest decimal>".
+//
+// The layout is the one the analytic functions use for PARTITION BY keys
+// (stream/analytic.go partitionKey).
+func GroupKeyPart(v any) string {
+	tk := groupTypeKey(v)
+	return strconv.Itoa(len(tk)) + ":" + tk + "|"
+}
+
+// groupTypeKey renders "<kind>|<value>"; nil is "nil|".
+func groupTypeKey(v any) string {
+	switch x := v.(type) {
+	case nil:
+		return "nil|"
+	case string:
+		return "string|" + x
+	case bool:
+		if x {
+			return "bool|true"
+		}
+		return "bool|false"
+	case int:
+		return "int|" + strconv.FormatInt(int64(x), 10)
+	case int8:
+		return "int|" + strconv.FormatInt(int64(x), 10)
+	case int16:
+		return "int|" + strconv.FormatInt(int64(x), 10)
+	case int32:
+		return "int|" + strconv.FormatInt(int64(x), 10)
+	case int64:
+		return "int|" + strconv.FormatInt(x, 10)
+	case uint:
+		return "int|" + strconv.FormatUint(uint64(x), 10)
+	case uint8:
+		return "int|" + strconv.FormatUint(uint64(x), 10)
+	case uint16:
+		return "int|" + strconv.FormatUint(uint64(x), 10)
+	case uint32:
+		return "int|" + strconv.FormatUint(uint64(x), 10)
+	case uint64:
+		return "int|" + strconv.FormatUint(x, 10)
+	case float32:
+		return groupFloatKey(float64(x))
+	case float64:
+		return groupFloatKey(x)
+	}
+	return fmt.Sprintf("%T|%v", v, v)
+}
+
+// groupFloatKey gives an integral float the key of the integer it equals.
+func groupFloatKey(f float64) string {
+	const two63 = 9223372036854775808.0
+	if f >= -two63 && f < two63 && f == float64(int64(f)) {
+		return "int|" + strconv.FormatInt(int64(f), 10)
+	}
+	return "float|" + strconv.FormatFloat(f, 'g', -1, 64)
+}
